@@ -313,8 +313,25 @@ def replyFromDialResultCode (code : Nat) : Nat :=
 
 /-- serverPendingConn.Proceed -/
 def proceed (b : Bytes) : M Unit := replyWithStatus b repSucceeded
-/-- serverPendingConn.Abort -/
-def abort (b : Bytes) (code : Nat) : M Unit := replyWithStatus b (u8 (replyFromDialResultCode code))
+/-- what `conn.DialResult.Err` can be: nothing, a syscall errno (possibly wrapped), a resolver error, the
+router's rejection, or any other error value -/
+inductive DialErr
+  | none
+  | errno (n : Nat) (wrapped : Bool)
+  | dns (notFound : Bool)
+  | rejected
+  | opaque (tag : Nat)
+deriving Repr, DecidableEq
+
+/-- conn.DialResult -/
+structure DialResult where
+  code : Nat
+  err : DialErr := .none
+deriving Repr, DecidableEq
+
+/-- serverPendingConn.Abort: the reply is a function of `dialResult.Code` only (regenerated fingerprint
+`Gen.C07.abortUsesCode`); `dialResult.Err` is not looked at. -/
+def abort (b : Bytes) (dr : DialResult) : M Unit := replyWithStatus b (u8 (replyFromDialResultCode dr.code))
 
 /-! ## SOCKS5 client -/
 
